@@ -168,6 +168,13 @@ func (m *mon) c01() {
 	}
 	running := m.finalWorkerStatus() == 1
 	genSeen := map[string]bool{}
+	// a dispatcher parked for ever on the hand-over to a pool goroutine: the job it has claimed
+	// (Processing) has no goroutine to run it — at rest, whether or not the scenario got stuck over it
+	for _, p := range m.s.Parked() {
+		if !p.Client && strings.HasPrefix(siteName(p.Site), "Node.Send/") && !m.s.Livelock {
+			m.add("C01", "never-ran", "a claimed job is stuck in the hand-over to a pool goroutine that no longer serves its channel (library goroutine g%d parked at %s at rest)", p.ID, siteName(p.Site))
+		}
+	}
 	for _, s := range m.e.subs {
 		if len(s.tEnter) > 1 {
 			m.add("C01", "twice", "job d%d was invoked %d times", s.data, len(s.tEnter))
@@ -540,6 +547,31 @@ func (m *mon) c07() {
 		}
 		if c.res != want {
 			m.add("C07", "wrong-outcome", "%s on d%d returned %q, the worker function produced %q", c.name, d, c.res, want)
+		}
+	}
+	// a panic is offered on the error channel: the goroutine that ran the job performs the
+	// non-blocking send of worker.sendError (whether or not the channel has room) before it takes
+	// its next job — also when the worker has been paused or is being stopped meanwhile
+	owed := map[int]int{} // thread -> data of the panicking job whose offer is due
+	for _, ev := range m.s.Log {
+		switch {
+		case ev.Kind == "wf-":
+			d, _ := strconv.Atoi(ev.Val)
+			if s := m.e.byData[d]; s != nil && s.outcome == oPanic {
+				owed[ev.Tid] = d
+			}
+		case ev.Kind == "trysend" && siteFunc(ev.Site) == "worker.sendError":
+			delete(owed, ev.Tid)
+		case ev.Kind == "wf+":
+			if d, ok := owed[ev.Tid]; ok {
+				m.add("C07", "panic-not-offered", "the panic of job d%d was never offered on the worker's error channel (its goroutine went on to the next job)", d)
+				delete(owed, ev.Tid)
+			}
+		}
+	}
+	if m.clean() {
+		for _, d := range owed {
+			m.add("C07", "panic-not-offered", "the panic of job d%d was never offered on the worker's error channel (system at rest)", d)
 		}
 	}
 	if m.clean() && m.e.finalCounts != nil {
